@@ -519,19 +519,26 @@ def r3_ranges(program, rep):
         t = T.term(c.args[1], n)
         m = match(("binop", "Sub", ("attr", V("M"), "entries"),
                    ("new", ANY, ("set", V("i")))), t)
-        if m is not None and T.term(c.args[0], n) == (
-                "attr", m["M"], "routing_table"):
+        # (every merge refined here is against the table of the merge given:
+        # _Merge(table, ...) is only ever created with that table)
+        P0 = ("attr", ("param", formals(up)[0]), "routing_table")
+        if m is not None and T.term(c.args[0], n) in (
+                ("attr", m["M"], "routing_table"), P0):
             rem.append((c, n, m["M"], m["i"]))
+    if not rem:
+        raise AnalysisError("_refine_upcheck: the removal of a member from "
+                            "the merge was not found in the form analysed")
     ok = len(rem) == 1
     if ok:
         c, n, M, I = rem[0]
-        TABLE = ("attr", M, "routing_table")
-        ENTRY = ("item", TABLE, I)
+        TABLES = (("attr", M, "routing_table"), P0)
         ok = False
         for kind, it, conds in T.quantified(n):
             if kind != "some":
                 continue
-            rng = it[0] == "item" and it[1] == TABLE and \
+            TABLE = it[1] if it[0] == "item" else None
+            ENTRY = ("item", TABLE, I)
+            rng = it[0] == "item" and it[1] in TABLES and \
                 it[2][0] == "slice" and it[2][1] in (
                     ("binop", "Add", I, ("const", 1)),
                     ("binop", "Add", ("const", 1), I), I) and \
@@ -755,7 +762,43 @@ def r4_aliases(program, rep):
                            f.name, hits[0].text if hits else ""))
     # members of a merge share one route
     gm = program.get(OC + ":_get_all_merges")
-    okg = "entry.route == other_entry.route" in unparse(gm)
+    G_ = Terms(gm)
+    # what is handed to _Merge is a set seeded with one index; every other
+    # index enters it only under "its entry's route equals the seed's"
+    okg = False
+    sets_ = []
+    for c in ast.walk(gm):
+        if isinstance(c, ast.Call) and call_name(c)[0] == "_Merge" and \
+                len(c.args) == 2:
+            sets_.append(G_.term(c.args[1], G_.cfg.node_containing(c)))
+    if len(sets_) != 1 or sets_[0][0] != "new":
+        raise AnalysisError("_get_all_merges: the candidate set")
+    MS = sets_[0]
+    adds = []
+    for n_, c_, recv, args in method_calls(G_, ("add", "update")):
+        if recv != MS or len(args) != 1:
+            continue
+        if c_.func.attr == "add":
+            adds.append((args[0], [x for x in G_.all_facts(n_)
+                                   if any(st_[0] == "attr" and
+                                          st_[2] == "route"
+                                          for st_ in subterms(x[0]))]))
+        else:
+            b_ = G_.filtered(args[0])
+            if not b_ or len(b_) != 1:
+                raise AnalysisError("_get_all_merges: how members are "
+                                    "collected")
+            adds.append((b_[0][1], list(b_[0][2])))
+    if not adds:
+        raise AnalysisError("_get_all_merges: how members are collected")
+
+    def route_eq(cond):
+        t, p = cond
+        return p and t[0] == "cmp" and t[1] == "Eq" and all(
+            x[0] == "attr" and x[2] == "route" for x in (t[2], t[3])) and \
+            t[2] != t[3]
+    okg = all(len(conds) == 1 and route_eq(conds[0])
+              for elt, conds in adds)
     rep.check(okg, "C04-R4", qual(gm), "only entries with identical routes "
               "are merged", construct="merge candidates share route",
               node=gm)
